@@ -37,6 +37,17 @@ def main():
         ck.fail("C03-guard-table", "guard decision differs from the table for (class, type, status, bet id, request) = %s: implementation %s" % (gcases[i], gout[i]), {"case": gcases[i], "impl": gout[i], "how": "harness/impl/c03.py"})
     for c, o in gbad_direct[:1]:
         ck.fail("C03-rejected-request-side-effect", "rejected request %s: not an OrderUpdateError or the order changed: %s" % (c, o), {"case": c, "impl": o, "how": "harness/impl/c03.py"})
+    # the lifecycle relation of the whole-run theorems (Model/SimGuard.v lifecycle_ok) is the relation the Python checker applies to the real status
+    # logs (propcheck.LEGAL + STUTTER): all 81 pairs compared
+    names = [(k, v) for k, v in simgen.STAT.items() if k != "NONE"]
+    lc = coq_eval("c03lifecycle", "From V Require Import Model.Num Model.Status Model.Sim Model.SimLoop Model.SimGuard.\nOpen Scope Z_scope.\n",
+                  ["Eval vm_compute in map (fun p => if lifecycle_ok (fst p) (snd p) then 1 else 0) %s.\n" % cl("(%s, %s)" % (a[1], b[1]) for a in names for b in names)])
+    got = parse_nlist(parse_evals(lc[0])[0])
+    pairs = [(a[0], b[0]) for a in names for b in names]
+    lbad = [i for i, (pr, g) in enumerate(zip(pairs, got)) if bool(g) != (pr in propcheck.LEGAL or pr in propcheck.STUTTER)]
+    ck.family("lifecycle_relation_of_the_theorems_vs_the_checker", len(pairs), len(pairs), lbad, [], exhaustive=True, dist={"legal_pairs": sum(got)})
+    for i in lbad[:1]:
+        ck.fail("C03-lifecycle-relation", "the lifecycle relation used by the Coq theorems and the one applied to the implementation's status logs differ on %s -> %s" % pairs[i], {"pair": pairs[i]})
     chk = [livecheck.c03]
     n = 1500 if thorough else 300
     # live: no stale snapshots here (an exchange does not take back what it has reported; C11 covers stale/duplicated snapshots)
